@@ -62,9 +62,15 @@ class _IdleReleaseInternalRunAdapter(BaseInternalRunAdapterDecorator):
     async def write_to_event_stream(self, event: Event) -> None:
         if isinstance(event, WorkflowIdleEvent):
             idle_since = datetime.now(timezone.utc)
-            await self._store.update_handler_status(
-                self.run_id, status="running", idle_since=idle_since
-            )
+            try:
+                await self._store.update_handler_status(
+                    self.run_id, status="running", idle_since=idle_since
+                )
+            except Exception:
+                # Idle bookkeeping is best effort: a store hiccup here must not
+                # take the run down (it would end with the handler still "running").
+                # Without idle_since the run is simply not released this time.
+                logger.exception("Failed to record idle state for run %s", self.run_id)
         await super().write_to_event_stream(event)
         if isinstance(event, WorkflowIdleEvent):
             self._runtime._spawn_task(self._runtime._deferred_release(self.run_id))
